@@ -82,7 +82,7 @@ fn f8_dispatch(state: &[u8], block: &[u8]) -> Vec<u8> {
     c.finalize().to_vec()
 }
 
-#[cfg(not(feature = "no_simd"))]
+#[cfg(all(not(feature = "no_simd"), not(feature = "api_only")))]
 mod direct {
     use super::*;
     use jh_x86_64::compressor::f8_impl;
@@ -131,7 +131,15 @@ mod direct {
     }
 }
 
-#[cfg(feature = "no_simd")]
+#[cfg(feature = "api_only")]
+mod direct {
+    /// api_only: always the dispatching `Compressor` path (the forced backend still applies through hook H1)
+    pub fn f8_backend(_backend: &str, _state: &[u8], _block: &[u8]) -> Option<Vec<u8>> {
+        None
+    }
+}
+
+#[cfg(all(feature = "no_simd", not(feature = "api_only")))]
 mod direct {
     use super::*;
     use jh_x86_64::compressor::f8_impl;
